@@ -15,10 +15,10 @@ def cand_family(name):
         return nodes, c
     if name == "n4q":
         # 10 candidates: reverse pairs, nested / overlapping shapes, co-sources that first appear together followed by a
-        # hyperedge out of one of them and one into the other
+        # hyperedge out of one of them and one into the other, three orientations on one node set
         nodes = [0, 1, 2, 3]
-        c = [((0,), (1,)), ((1,), (0,)), ((0, 1), (2,)), ((2,), (0, 1)), ((0,), (3,)), ((3,), (1,)), ((2, 3), (0, 1)),
-             ((2,), (1,)), ((0,), (2, 3)), ((1,), (2,))]
+        c = [((0,), (1,)), ((1,), (0,)), ((0, 1), (2,)), ((0,), (1, 2)), ((2,), (0, 1)), ((0,), (3,)), ((3,), (1,)),
+             ((2, 3), (0, 1)), ((2,), (1,)), ((0,), (2, 3))]
         return nodes, c
     if name == "n5":
         nodes = [0, 1, 2, 3, 4]
@@ -85,64 +85,79 @@ def build(spec):
                 return Fail("degree-sums")
             return None
         m = S.int("m", lo=2, hi=spec.get("mmax", 7))
-        bounded = [e for e in present if 2 <= esz(e) <= m]
-        if what == "signature":
-            sig = hyperedge_signature_vector(h, max_hyperedge_size=m)
-            if len(sig) != (m - 1) * (m - 1):
-                return Fail("signature:length")
-            tot = 0
-            for i in range(1, m):
-                for j in range(1, m):
-                    want = len([e for e in bounded if len(e[0]) == i and len(e[1]) == j])
-                    got = sig[(i - 1) * (m - 1) + (j - 1)]
-                    if got != want:
-                        return Fail("signature:cell")
-                    tot += got
-            if tot != len(bounded):
-                return Fail("signature:sum")
-            if present:
-                mx = max(esz(e) for e in present)
-                sig0 = hyperedge_signature_vector(h)
-                if len(sig0) != (mx - 1) * (mx - 1) or sum(sig0) != len(present):
-                    return Fail("signature:default-bound")
-            else:
-                if len(hyperedge_signature_vector(h)) != 0:
-                    return Fail("signature:empty")
+
+        def check(present):
+            bounded = [e for e in present if 2 <= esz(e) <= m]
+            if what == "signature":
+                sig = hyperedge_signature_vector(h, max_hyperedge_size=m)
+                if len(sig) != (m - 1) * (m - 1):
+                    return Fail("signature:length")
+                tot = 0
+                for i in range(1, m):
+                    for j in range(1, m):
+                        want = len([e for e in bounded if len(e[0]) == i and len(e[1]) == j])
+                        got = sig[(i - 1) * (m - 1) + (j - 1)]
+                        if got != want:
+                            return Fail("signature:cell")
+                        tot += got
+                if tot != len(bounded):
+                    return Fail("signature:sum")
+                if present:
+                    mx = max(esz(e) for e in present)
+                    sig0 = hyperedge_signature_vector(h)
+                    if len(sig0) != (mx - 1) * (mx - 1) or sum(sig0) != len(present):
+                        return Fail("signature:default-bound")
+                else:
+                    if len(hyperedge_signature_vector(h)) != 0:
+                        return Fail("signature:empty")
+                return None
+            # reciprocity
+            ex = exact_reciprocity(h, m)
+            st = strong_reciprocity(h, m)
+            wk = weak_reciprocity(h, m)
+            bset = set(bounded)
+            reach = {}
+            pairs = set()
+            for e in bounded:
+                for s in e[0]:
+                    reach.setdefault(s, set()).update(e[1])
+                    for t in e[1]:
+                        pairs.add((s, t))
+            for size in range(2, m + 1):
+                es = [e for e in bounded if esz(e) == size]
+                for name, got in (("exact", ex), ("strong", st), ("weak", wk)):
+                    if size not in got:
+                        return Fail("reciprocity:%s:missing-size" % name)
+                if sorted(ex) != list(range(2, m + 1)) or sorted(st) != list(range(2, m + 1)) \
+                        or sorted(wk) != list(range(2, m + 1)):
+                    return Fail("reciprocity:keys")
+                if not es:
+                    if ex[size] != 0 or st[size] != 0 or wk[size] != 0:
+                        return Fail("reciprocity:empty-size-not-zero")
+                    continue
+                n_ex = len([e for e in es if (e[1], e[0]) in bset])
+                n_st = len([e for e in es if set(e[0]) <= set().union(*[reach.get(t, set()) for t in e[1]])])
+                n_wk = len([e for e in es if any((t, s) in pairs for s in e[0] for t in e[1])])
+                for name, got, cnt in (("exact", ex, n_ex), ("strong", st, n_st), ("weak", wk, n_wk)):
+                    if abs(got[size] - cnt / len(es)) > 1e-12:
+                        return Fail("reciprocity:%s:value" % name)
+                    if not (0 <= got[size] <= 1):
+                        return Fail("reciprocity:%s:range" % name)
+                if not (ex[size] <= st[size] <= wk[size]):
+                    return Fail("reciprocity:order exact<=strong<=weak")
             return None
-        # reciprocity
-        ex = exact_reciprocity(h, m)
-        st = strong_reciprocity(h, m)
-        wk = weak_reciprocity(h, m)
-        bset = set(bounded)
-        reach = {}
-        pairs = set()
-        for e in bounded:
-            for s in e[0]:
-                reach.setdefault(s, set()).update(e[1])
-                for t in e[1]:
-                    pairs.add((s, t))
-        for size in range(2, m + 1):
-            es = [e for e in bounded if esz(e) == size]
-            for name, got in (("exact", ex), ("strong", st), ("weak", wk)):
-                if size not in got:
-                    return Fail("reciprocity:%s:missing-size" % name)
-            if sorted(ex) != list(range(2, m + 1)) or sorted(st) != list(range(2, m + 1)) \
-                    or sorted(wk) != list(range(2, m + 1)):
-                return Fail("reciprocity:keys")
-            if not es:
-                if ex[size] != 0 or st[size] != 0 or wk[size] != 0:
-                    return Fail("reciprocity:empty-size-not-zero")
-                continue
-            n_ex = len([e for e in es if (e[1], e[0]) in bset])
-            n_st = len([e for e in es if set(e[0]) <= set().union(*[reach.get(t, set()) for t in e[1]])])
-            n_wk = len([e for e in es if any((t, s) in pairs for s in e[0] for t in e[1])])
-            for name, got, cnt in (("exact", ex, n_ex), ("strong", st, n_st), ("weak", wk, n_wk)):
-                if abs(got[size] - cnt / len(es)) > 1e-12:
-                    return Fail("reciprocity:%s:value" % name)
-                if not (0 <= got[size] <= 1):
-                    return Fail("reciprocity:%s:range" % name)
-            if not (ex[size] <= st[size] <= wk[size]):
-                return Fail("reciprocity:order exact<=strong<=weak")
+
+        r = check(present)
+        if r is not None:
+            return r
+        absent = [c for c, b_ in zip(cands, bits) if not b_]
+        if spec.get("rewire") and present and absent:
+            # the same object is rewired (hyperedge count unchanged) and measured again with the same bound
+            h.remove_edge(present[0])
+            h.add_edge(absent[0])
+            r = check(present[1:] + [absent[0]])
+            if r is not None:
+                return Fail(r.label + ":after-rewiring-the-same-object")
         return None
 
     return harness
@@ -157,7 +172,8 @@ def obligations(tier, seed):
             for what in ("signature", "reciprocity"):
                 kb = sum(fixed) + (what == "signature")
                 out.append({"family": what, "cands": cname, "fixed": list(fixed), "what": what, "reverse": rev,
-                            "mmax": 5 if q else 7, "build": ("add", "add-rev", "remove", "readd")[kb % 4]})
+                            "mmax": 5 if q else 7, "build": ("add", "add-rev", "remove", "readd")[kb % 4],
+                            "rewire": kb % 2 == 0})
     for cname, nfix in ([("n4q", 2)] if q else [("n4", 3), ("n5", 5)]):
         for fixed in itertools.product([0, 1], repeat=nfix):
             for fm in ("none", "order", "size"):
